@@ -186,6 +186,7 @@ CLAIMED = {
          'in declared order then the rest sorted, invariant under permutation of the keys. upper is abstract with the '
          'single law upper(upper k) = upper k, checked for every code point of the running interpreter.',
          "The ten delegating CaselessDict methods and their keyword defaults are regenerated from the source by tools/py2lean.py and proved equal to the hand model's steps (body_cd_*). "
+         'canonsort_keys (dict comprehension, filtered comprehensions, keyed stable sort) and CaselessDict.__init__ / update / copy are regenerated too and proved equal to canonsort / cdInit / cdUpdate / cdCopy (body_canonsort_keys, body_cd_init, body_cd_init_rekey, body_cd_update, body_cd_copy). '
          'Trusted: Lean kernel; hand model of every CaselessDict method (overridden and inherited) tied by correspondence '
          'against live CaselessDict, Parameters and Component objects (all sequences <= 2, sampled 3, random 30-step); '
          'str.upper idempotence (checked exhaustively each run).',
